@@ -14,25 +14,23 @@ import (
 
 func init() { register("caches", "CacheSites", genCaches) }
 
-type cacheFn struct{ file, recv, name, field string }
-
-var cacheFns = []cacheFn{
-	{"types/arraytype.go", "Array", "privateReducedType", "reducedType"},
-	{"types/arraytype.go", "Array", "privateDetailedType", "detailedType"},
-	{"types/hashtype.go", "Hash", "privateReducedType", "reducedType"},
-	{"types/hashtype.go", "Hash", "privateDetailedType", "detailedType"},
-	{"types/hashtype.go", "Hash", "valueIndex", "index"},
-	{"types/typedname.go", "typedName", "MapKey", "canonical"},
-	{"types/typedname.go", "typedName", "Parts", "parts"},
-}
+// The lazily initialised fields are FOUND, not listed: in every method of the files below, an `if recv.F == nil` (or
+// `== ""`) whose body assigns `recv.F` — directly, or through a method of the same receiver that it calls — is a lazy
+// initialisation of F.  (Array/Hash caches, typedName caches, StructType.hashedMembers, objectType.ctor …)
+var cacheFiles = []string{"types/arraytype.go", "types/hashtype.go", "types/typedname.go", "types/structtype.go", "types/objecttype.go"}
 
 func isPointOrReturn(s ast.Stmt) (isReturn, ok bool) {
 	switch s := s.(type) {
 	case *ast.ReturnStmt:
 		return true, true
 	case *ast.ExprStmt:
-		if c, isCall := s.X.(*ast.CallExpr); isCall && strings.HasPrefix(src(c.Fun), "verifhook.Point") {
-			return false, true
+		if c, isCall := s.X.(*ast.CallExpr); isCall {
+			if strings.HasPrefix(src(c.Fun), "verifhook.Point") {
+				return false, true
+			}
+			if _, op, isLock := lockOp(c); isLock && (op == "Unlock" || op == "RUnlock") {
+				return false, true // releasing the lock that guarded the initialisation writes nothing to the object
+			}
 		}
 	}
 	return false, false
@@ -92,30 +90,137 @@ func cacheWalk(stmts []ast.Stmt, rv, field string, contOK bool, fn string, rows 
 	}
 }
 
+// lazyField: is cond `rv.F == nil` / `rv.F == ""`?  returns F
+func lazyField(cond ast.Expr, rv string) (string, bool) {
+	be, ok := cond.(*ast.BinaryExpr)
+	if !ok || be.Op != token.EQL {
+		return "", false
+	}
+	for _, pair := range [][2]ast.Expr{{be.X, be.Y}, {be.Y, be.X}} {
+		sel, ok := pair[0].(*ast.SelectorExpr)
+		if !ok {
+			continue
+		}
+		id, ok := sel.X.(*ast.Ident)
+		if !ok || id.Name != rv {
+			continue
+		}
+		switch z := pair[1].(type) {
+		case *ast.Ident:
+			if z.Name == "nil" {
+				return sel.Sel.Name, true
+			}
+		case *ast.BasicLit:
+			if z.Kind == token.STRING && (z.Value == "``" || z.Value == `""`) {
+				return sel.Sel.Name, true
+			}
+		}
+	}
+	return "", false
+}
+
+// calledMethods: the methods of the receiver called (as statements or inside expressions) in these statements
+func calledMethods(stmts []ast.Stmt, rv string) []string {
+	var out []string
+	for _, st := range stmts {
+		ast.Inspect(st, func(n ast.Node) bool {
+			if c, ok := n.(*ast.CallExpr); ok {
+				if sel, ok := c.Fun.(*ast.SelectorExpr); ok {
+					if id, ok := sel.X.(*ast.Ident); ok && id.Name == rv {
+						out = append(out, sel.Sel.Name)
+					}
+				}
+			}
+			return true
+		})
+	}
+	return out
+}
+
+type methodDecl struct {
+	recv, rv string
+	fd       *ast.FuncDecl
+}
+
 func genCaches() string {
 	var rows []cacheRow
-	files := map[string]*ast.File{}
-	for _, cf := range cacheFns {
-		f := files[cf.file]
-		if f == nil {
-			f = parseFile(cf.file)
-			files[cf.file] = f
+	for _, file := range cacheFiles {
+		f := parseFile(file)
+		methods := map[string]methodDecl{} // "Recv.name"
+		var order []string
+		for _, d := range f.Decls {
+			fd, ok := d.(*ast.FuncDecl)
+			if !ok || fd.Body == nil || fd.Recv == nil || len(fd.Recv.List) != 1 || len(fd.Recv.List[0].Names) != 1 {
+				continue
+			}
+			t := fd.Recv.List[0].Type
+			if st, ok := t.(*ast.StarExpr); ok {
+				t = st.X
+			}
+			id, ok := t.(*ast.Ident)
+			if !ok {
+				continue
+			}
+			k := id.Name + "." + fd.Name.Name
+			methods[k] = methodDecl{id.Name, fd.Recv.List[0].Names[0].Name, fd}
+			order = append(order, k)
 		}
-		fd := findFunc(f, cf.recv, cf.name)
-		rv := ""
-		if len(fd.Recv.List[0].Names) == 1 {
-			rv = fd.Recv.List[0].Names[0].Name
-		}
-		name := cf.recv + "." + cf.name
-		before := len(rows)
-		cacheWalk(fd.Body.List, rv, cf.field, true, name, &rows)
-		if len(rows) == before {
-			// the idiom was not recognised: a row that no side condition accepts
-			rows = append(rows, cacheRow{fn: name, field: "unknown: no assignment to " + rv + "." + cf.field, publishLast: false, line: fset.Position(fd.Pos()).Line})
+		for _, k := range order {
+			m := methods[k]
+			// every lazy-initialisation `if` of this method, at any depth; contOK as in cacheWalk
+			var visit func(stmts []ast.Stmt, contOK bool)
+			visit = func(stmts []ast.Stmt, contOK bool) {
+				for i, s := range stmts {
+					tailOK, returned := true, false
+					for _, fo := range stmts[i+1:] {
+						isRet, ok := isPointOrReturn(fo)
+						if !ok {
+							tailOK = false
+							break
+						}
+						if isRet {
+							returned = true
+							break
+						}
+					}
+					here := tailOK && (returned || contOK)
+					switch s := s.(type) {
+					case *ast.IfStmt:
+						if field, ok := lazyField(s.Cond, m.rv); ok {
+							before := len(rows)
+							cacheWalk(s.Body.List, m.rv, field, here, k, &rows)
+							if len(rows) == before {
+								// not assigned here: through a method of the same receiver?
+								for _, callee := range calledMethods(s.Body.List, m.rv) {
+									if cm, ok := methods[m.recv+"."+callee]; ok {
+										cacheWalk(cm.fd.Body.List, cm.rv, field, true, k+">"+callee, &rows)
+									}
+								}
+							}
+							// an `if` that assigns nothing to the field is a test, not an initialisation: no row
+						} else {
+							visit(s.Body.List, here)
+						}
+						switch e := s.Else.(type) {
+						case *ast.BlockStmt:
+							visit(e.List, here)
+						case *ast.IfStmt:
+							visit([]ast.Stmt{e}, here)
+						}
+					case *ast.ForStmt:
+						visit(s.Body.List, false)
+					case *ast.RangeStmt:
+						visit(s.Body.List, false)
+					case *ast.BlockStmt:
+						visit(s.List, here)
+					}
+				}
+			}
+			visit(m.fd.Body.List, true)
 		}
 	}
 	var b strings.Builder
-	b.WriteString(header("caches", "types/arraytype.go, types/hashtype.go, types/typedname.go"))
+	b.WriteString(header("caches", strings.Join(cacheFiles, ", ")))
 	b.WriteString("import Pcore.Model.LazyCache\nnamespace Pcore.Generated\nopen Pcore.LazyCache\n\ndef cacheSites : List CacheSite := [\n")
 	for i, r := range rows {
 		sep := ","
